@@ -852,6 +852,17 @@ fn l_relabel(n: LogicalPlan, label: u32, ws: bool) -> LogicalPlan {
     }
 }
 
+/// `==`, except that a `SubqueryAlias` derives its schema from its input when it is built and
+/// child rewrites are documented not to refresh derived schemas: trees containing one are compared
+/// on their indented display (all attributes but the schemas)
+fn l_same(a: &LogicalPlan, b: &LogicalPlan) -> bool {
+    if a == b {
+        return true;
+    }
+    let has_alias = |p: &LogicalPlan| p.exists(|n| Ok(matches!(n, LogicalPlan::SubqueryAlias(_)))).unwrap_or(false);
+    (has_alias(a) || has_alias(b)) && a.display_indent().to_string() == b.display_indent().to_string()
+}
+
 /// plain `TreeNode` view of a logical plan (inputs only)
 pub struct L;
 impl Family for L {
@@ -882,7 +893,7 @@ impl Family for L {
         l_make("Limit", id, 0, &mut vec![n])
     }
     fn same(a: &LogicalPlan, b: &LogicalPlan) -> bool {
-        a == b
+        l_same(a, b)
     }
     fn call(api: Api, n: LogicalPlan, drv: &mut Driver<Self>) -> DFResult<Actual<LogicalPlan>> {
         treenode_call::<L>(api, n, drv)
@@ -922,7 +933,7 @@ impl Family for LW {
         l_make("Limit", id, 0, &mut vec![n])
     }
     fn same(a: &LogicalPlan, b: &LogicalPlan) -> bool {
-        a == b
+        l_same(a, b)
     }
     fn api_name(api: Api) -> String {
         format!("{}_with_subqueries", api.name())
